@@ -52,7 +52,9 @@ def r1(ctx):
                     return True
         return False
 
-    flushes = {cs.bb for cs in b.calls() if cs.name == "take" and cs.fn and "Option" in cs.fn["def"] and refers(cs, prev)}
+    prev_ptrs = R.pointers_to(b, prev)
+    flushes = {cs.bb for cs in b.calls() if cs.name == "take" and cs.fn and "Option" in cs.fn["def"]
+               and (refers(cs, prev) or (cs.args and cs.args[0].get("k") in ("copy", "move") and cs.args[0]["pl"]["l"] in prev_ptrs))}
     if not ctx.anchor(rule, "Option::take on `previous`", sorted(flushes)):
         return
     append_blocks = {cs.bb for cs in appends}
